@@ -121,7 +121,7 @@ def discipline(cid, f0, reqs, d):
         dec = cells.decode(f0, reqs)
     except cells.Undecodable as e:
         return 'undecodable', None, str(e)
-    bad = cells.check_syncs(dec)
+    bad = cells.check_syncs(dec) or cells.check_syncs_coq(dec, d, cid, os.path.join(qv.VERIF, 'driver', 'qdrv'))
     if bad:
         return 'tie', dec, bad
     p = os.path.join(d, cid + '.disc.txt')
